@@ -53,4 +53,16 @@ CHECKS = {
         abnormal_exit_is_violation=True,
         assumptions=HARNESS_TRUST,
     ),
+    "C04": dict(
+        level="exploration",
+        rule=("history = sequence over {SELECT, OPERATE(same objects / one byte differs), DIRECT_OPERATE, READ, CONFIRM, malformed, broadcast, foreign-master, exact repeat, advance to T-1/T/T+1 ms of the select timeout, reconnect close/pre-empt} "
+              "with adversarial sequence numbers; systematic part: SELECT,x,OPERATE and SELECT,x,y,OPERATE for all x,y of a 12-symbol alphabet; every OPERATE is judged by the reference justification predicate; "
+              "distinct = (verdict reason incl. which conjunct fails / what intervened, polled|unsolicited, number of select repeats)"),
+        runs=[dict(check="c04", timeout_s=900)],
+        required=["justified_executed_once", "unjustified_rejected", "selects_successful", "selects_failed", "select_repeats", "systematic_histories"],
+        thorough_scale=25.0,
+        abnormal_exit_is_violation=True,
+        exhaustive_note="all 157 histories SELECT [x [y]] OPERATE over the 12-symbol alphabet on every run; thorough adds all 1728 x,y,z,OPERATE histories",
+        assumptions=HARNESS_TRUST,
+    ),
 }
